@@ -210,6 +210,51 @@ Theorem C03_readers_of_a_tensor_without_instruction_are_unchanged :
 Proof. exact transform_graph_readers_untouched. Qed.
 Print Assumptions C03_readers_of_a_tensor_without_instruction_are_unchanged.
 
+(* the positive counterpart for an inserted QUANTIZE / DEQUANTIZE, from the step
+   to the END of the run: the operators the instruction lists (resolved to
+   positions cs through the performer's id map om) read the NEW tensor — id
+   `ntens g`, typed by the instruction's parameters (C03_inserted_op_converts_
+   between_neighbour_dtypes) — at exactly the operand slots where they read the
+   old one, no other original operator reads it (`moved_profile`), and this is
+   still so after the remaining instructions of the list and all later lists,
+   provided none of them names the new tensor *)
+Theorem C03_listed_consumers_read_the_inserted_tensor_until_the_end :
+  forall k st i later st1 later1 fuel st2 post st3 g om cs,
+    nth_opt (m_subgraphs (ps_model st)) k = Some g ->
+    (i_trans i = Tr_ADD_QUANTIZE \/ i_trans i = Tr_ADD_DEQUANTIZE) ->
+    0 <= i_tensor i < ntens g -> (forall o, In o (sg_ops g) -> ~ In (ntens g) (o_ins o)) ->
+    py_index (ps_orig st) (Z.of_nat k) = Ok om ->
+    mapM (fun c => if Z.eqb c (-1) then Ok (-1) else py_index om c) (i_consumers i) = Ok cs ->
+    Forall (fun c => c = -1 \/ 0 <= c) cs ->
+    apply_single st (Z.of_nat k) i later = Ok (st1, later1) ->
+    Forall (fun j => 0 <= i_tensor j) later1 -> Forall (quiet (ntens g)) later1 ->
+    apply_insts st1 (Z.of_nat k) later1 fuel = Ok st2 ->
+    ids_ok post -> never_names k (ntens g) post -> run_all post st2 = Ok st3 ->
+    exists g3, nth_opt (m_subgraphs (ps_model st3)) k = Some g3 /\
+               readers_profile (ntens g) g3 = moved_profile (i_tensor i) cs g.
+Proof. exact inserted_tensor_readers. Qed.
+Print Assumptions C03_listed_consumers_read_the_inserted_tensor_until_the_end.
+
+(* non-vacuity: QUANTIZE inserted on the graph input of x --op--> y for consumer
+   0: the new tensor 2 is read by the operator with uid 0 at slot 0 *)
+Example C03_inserted_readers_nonvacuous :
+  let i := {| i_trans := Tr_ADD_QUANTIZE; i_tensor := 0; i_producer := -1; i_consumers := [0];
+              i_params := Some {| qp_id := 5; qp_uniform := true; qp_bits := 8; qp_has_data := false |} |} in
+  let m := {| m_subgraphs := [{| sg_tensors := [{| t_root := 0; t_sfx := []; t_shape := 0; t_ty := TY_FLOAT32; t_buf := 0; t_q := None |};
+                                                {| t_root := 1; t_sfx := []; t_shape := 0; t_ty := TY_FLOAT32; t_buf := 0; t_q := None |}];
+                                 sg_ops := [{| o_code := 0; o_ins := [0]; o_outs := [1]; o_uid := 0 |}];
+                                 sg_inputs := [0]; sg_outputs := [1] |}];
+              m_buffers := [BEmpty]; m_opcodes := [0]; m_sigs := [] |} in
+  match apply_single (init_pstate m) 0 i [] with
+  | Ok (st1, later1) =>
+      later1 = [] /\
+      option_map (readers_profile 2) (nth_opt (m_subgraphs (ps_model st1)) 0) = Some [(0, [true])] /\
+      option_map (moved_profile 0 [0]) (nth_opt (m_subgraphs m) 0) = Some [(0, [true])] /\
+      option_map (fun g => map (fun t => (t_ty t, t_q t)) (sg_tensors g)) (nth_opt (m_subgraphs (ps_model st1)) 0)
+        = Some [(TY_FLOAT32, None); (TY_FLOAT32, None); (TY_INT8, Some 5)]
+  | Err _ => False end.
+Proof. vm_compute. repeat split; reflexivity. Qed.
+
 (* non-vacuity of the two whole-run clauses: x --op--> y; y's list is
    [QUANTIZE_TENSOR p; ADD_DEQUANTIZE p for the graph output]: y comes back
    int8 with p's annotation, x comes back untouched *)
